@@ -1152,3 +1152,82 @@ def check_c15(pid, tier, build, props):
 
 
 REGISTRY["C15"] = check_c15
+
+
+# --------------------------------------------------------------------------- C17
+def check_c17(pid, tier, build, props):
+    import subprocess
+
+    from . import c17, par
+
+    t = common.Timer()
+    problems = base_problems(build, props, pid)
+    common.import_repo()
+    items = c17.items_for(tier, common.seed())
+    out, errors = par.run(items, c17.export_item)
+    if errors:
+        problems.append("driver errors: %r" % errors[:2])
+    violations = []
+    n = ok = 0
+    graphs = 0
+    for item, meta, res in out:
+        if meta and "harness_error" in meta:
+            problems.append("harness error: %r" % (meta,))
+            continue
+        graphs += 1
+        for f in meta["failures"]:
+            if len(violations) < 6:
+                violations.append({"graph": item[1], "payload": item[2], "stage": stages.STAGES[f["stage"]],
+                                   "witness": {"reason": f["reason"]}})
+        if res is None:
+            continue
+        rs = res if (res and isinstance(res[0], list)) else [res]
+        for k, x in enumerate(rs):
+            n += 1
+            if x == [1, 1, 1]:
+                ok += 1
+            elif len(violations) < 6:
+                what = ["nodes/clusters", "edges", "raise/no-raise"]
+                violations.append({"graph": item[1], "payload": item[2], "stage": stages.STAGES[k],
+                                   "witness": {"reason": "drawing differs from the graph: " +
+                                               ", ".join(w for w, v in zip(what, x) if v != 1)}})
+    texts, bf_fail = c17.byteflow_texts(tier)
+    for f in bf_fail[:3]:
+        violations.append({"function": f["function"], "witness": {"reason": f["reason"]}})
+    res = subprocess.run([par.VCHK], input="".join(texts), capture_output=True, text=True)
+    bf_lines = res.stdout.splitlines()
+    bf_ok = sum(1 for l in bf_lines if l.endswith("1 1 1"))
+    if len(bf_lines) != len(texts):
+        problems.append("driver: %d answers for %d byte-flow drawings" % (len(bf_lines), len(texts)))
+    if bf_ok != len(bf_lines) and len(violations) < 8:
+        violations.append({"witness": {"reason": "ByteFlowRenderer drawing differs from the graph",
+                                       "count": len(bf_lines) - bf_ok}})
+    nth = len(props["theorems"])
+    coverage = {
+        "obligations": nth + 1,
+        "discharged": (nth if props["ok"] else 0) + (1 if n and ok == n and bf_ok == len(bf_lines) and not violations else 0),
+        "checker_cmd": "coqc Props/C17.v; build/extract/vchk (Render.run_c17) on the parsed DOT body of every drawing",
+        "trusted_base": TRUSTED + ["extraction and ocaml/driver.ml", "harness/vh/c17.py: the parser of Digraph.body",
+                                   "graphviz.Digraph as a recorder of lines (no dot binary, no viewer)"],
+        "theorems": props["theorems"],
+        "evaluations": n + len(bf_lines),
+        "distinct_nontrivial": graphs + len(bf_lines) // 2,
+        "rule": "SCFGRenderer on closed CFGs (all <=3 blocks, sampled 4-block, shapes, random up to 30 blocks) with "
+                "plain, bytecode and AST payloads after each stage; ByteFlowRenderer on standard-library functions "
+                "before and after restructuring; each drawing's node / cluster / edge commands compared, order "
+                "included, with the model; label text (name, control variable, table, assignments) checked by the "
+                "harness; distinct = input graphs and functions",
+        "drawings_equal_to_model": ok + bf_ok,
+        "samples": [{"graph": items[len(items) // 2][1], "payload": items[len(items) // 2][2]}],
+        "traces_validated_against_impl": ok + bf_ok,
+        "explanation": "Proved (U): the model draws exactly one node per non-region block and one cluster per region, "
+                       "in hierarchy order and properly nested; an edge a->b (solid/dashed) is drawn exactly for the "
+                       "jump targets / back edges of the non-region blocks of the iteration, to the innermost header. "
+                       "With C16_iter the iteration covers every block. Tie: the parsed DOT body equals the model's "
+                       "command list for every drawing. Label text is compared by the harness, not proved.",
+    }
+    return {"coverage": coverage, "violations": violations, "problems": problems, "level": "proof",
+            "wall_s": t.s(), "broken_name": "Props/C17.v / correspondence DOT body = Render model"}
+
+
+REGISTRY["C17"] = check_c17
